@@ -176,44 +176,70 @@ Theorem C10_hook_header_is_sent : forall detect c s k v,
 Proof. exact hook_header_is_sent. Qed.
 Print Assumptions C10_hook_header_is_sent.
 
-(* multipart bodies (Model/RetryUpload.v).  Whatever the kinds of file source and whatever was
-   used before: a body that is sent carries every field and every file completely - a multipart
-   upload is never retried partially *)
-Theorem C10_upload_never_partial : forall detect form n att fs,
-  Forall (fun ps => ps = full_parts detect form fs) (fst (mp_attempts file_read detect n att form fs)).
+(* multipart bodies (Model/RetryUpload.v), buffered and forced-chunked encoding.  Whatever the
+   kinds of file source (everything but a caller-supplied GetFileContent sharing one plain
+   reader): a body that was written to its end carries every field and every file completely -
+   a multipart upload is never retried partially; in the buffered variant every body that is
+   sent was written to its end *)
+Theorem C10_upload_never_partial : forall detect form chunked n att fs,
+  Forall managed fs -> (0 <= att)%Z -> Forall unused fs \/ (1 <= att)%Z ->
+  Forall (fun a => snd a = true -> fst a = full_parts detect form fs)
+         (fst (mp_attempts file_read detect chunked n att form fs)).
 Proof. exact upload_never_partial. Qed.
 Print Assumptions C10_upload_never_partial.
 
+Theorem C10_upload_buffered_complete : forall detect form n att fs,
+  Forall (fun a => snd a = true) (fst (mp_attempts file_read detect false n att form fs)).
+Proof. exact upload_buffered_complete. Qed.
+Print Assumptions C10_upload_buffered_complete.
+
 (* the first attempt carries every file completely, whatever the kind of source ... *)
 Theorem C10_upload_first_complete : forall detect att form fs,
-  Forall unused fs -> fst (mp_pass file_read detect att form fs) = Some (full_parts detect form fs).
+  Forall unused fs ->
+  fst (mp_pass file_read detect att form fs) = (full_parts detect form fs, true).
 Proof. exact upload_first_complete. Qed.
 Print Assumptions C10_upload_first_complete.
 
 (* ... and with replayable sources (SetFileBytes, SetFile by path, SetFileReader with a reader
-   that can be rewound) every attempt is sent and carries the same parts - for every number of
-   attempts *)
-Theorem C10_upload_attempts_identical : forall detect form fs n,
+   that can be rewound, a caller-supplied GetFileContent sharing one io.ReadSeeker) every attempt
+   is sent and carries the same parts - in both encodings, for every number of attempts *)
+Theorem C10_upload_attempts_identical : forall detect form chunked fs n,
   Forall replayable fs -> Forall unused fs ->
-  mp_attempts file_read detect n 0 form fs = (repeat (full_parts detect form fs) n, false).
+  mp_attempts file_read detect chunked n 0 form fs = (repeat (full_parts detect form fs, true) n, false).
 Proof. exact upload_attempts_identical. Qed.
 Print Assumptions C10_upload_attempts_identical.
 
-(* a reader that cannot be rewound: first attempt complete, the retry is refused (known finding
-   unreplayable:upload-ends-retries: not refused up front) *)
-Theorem C10_upload_one_shot_ends_retries : forall detect param name kind content,
-  kind = FPlainReader \/ kind = FOsFile ->
-  mp_attempts file_read detect 2 0 [] [mkFile param name kind content false] =
-  ([[PFile param name (detect (pad512 content)) content]], true).
-Proof. exact upload_one_shot_ends_retries. Qed.
-Print Assumptions C10_upload_one_shot_ends_retries.
+(* an upload that can be sent only once (SetFileReader with a reader that is not an io.Seeker,
+   or with an os.File) makes a retryable call fail up front; without retries it is sent once,
+   completely *)
+Theorem C10_upload_once_only_refused_up_front : forall detect chunked n form fs,
+  existsb upload_once_only fs = true ->
+  mp_run file_read detect true chunked n form fs = ([], false, true).
+Proof. exact upload_once_only_refused_up_front. Qed.
+Print Assumptions C10_upload_once_only_refused_up_front.
+
+Theorem C10_upload_once_only_single_attempt : forall detect chunked form fs,
+  Forall unused fs ->
+  mp_run file_read detect false chunked 1 form fs = ([(full_parts detect form fs, true)], false, false).
+Proof. exact upload_once_only_single_attempt. Qed.
+Print Assumptions C10_upload_once_only_single_attempt.
+
+(* the code as it is for a caller-supplied GetFileContent that returns the same plain reader on
+   every call (the caller's contract, see design.d/C10.md): the retry carries a zero-length file *)
+Theorem C10_upload_custom_plain_partial : forall detect chunked param name content,
+  mp_attempts file_read detect chunked 2 0 [] [mkFile param name FCustomPlain content false] =
+  ([([PFile param name (detect (pad512 content)) content], true);
+    ([PFile param name (detect (pad512 [])) []], true)], false).
+Proof. exact upload_custom_plain_partial. Qed.
+Print Assumptions C10_upload_custom_plain_partial.
 
 (* SetFileReader as pinned (before 6b60c65): the drained reader is uploaded again as a
    zero-length file *)
 Theorem C10_upload_reader_pinned_refuted : forall detect param name kind content,
   kind = FSeekReader \/ kind = FPlainReader ->
-  mp_attempts file_read_pinned detect 2 0 [] [mkFile param name kind content false] =
-  ([[PFile param name (detect (pad512 content)) content]; [PFile param name (detect (pad512 [])) []]], false).
+  mp_attempts file_read_pinned detect false 2 0 [] [mkFile param name kind content false] =
+  ([([PFile param name (detect (pad512 content)) content], true);
+    ([PFile param name (detect (pad512 [])) []], true)], false).
 Proof. exact upload_reader_pinned_refuted. Qed.
 Print Assumptions C10_upload_reader_pinned_refuted.
 
